@@ -85,25 +85,30 @@ func (p *Profile) activated(jdk string, os ActivationOS) (bool, error) {
 	act := p.Activation
 	res := false
 	if act.JDK != "" {
-		c, err := semver.Maven.ParseConstraint(string(act.JDK))
+		// A JDK version prefixed by ! activates the profile when the version
+		// does not match.
+		want, negate := strings.CutPrefix(string(act.JDK), "!")
+		c, err := semver.Maven.ParseConstraint(want)
 		if err != nil {
 			return false, err
 		}
+		match := true
 		if c.IsSimple() {
 			// A profile should be active when the JDK version is of
 			// the same major and minor number.
 			// https://maven.apache.org/guides/introduction/introduction-to-profiles.html#jdk
-			cmp, diff, err := semver.Maven.Difference(string(act.JDK), jdk)
+			cmp, diff, err := semver.Maven.Difference(want, jdk)
 			if err != nil {
 				return false, err
 			}
 			if cmp > 0 || (cmp < 0 && (diff == semver.DiffMajor || diff == semver.DiffMinor)) {
-				return false, nil
+				match = false
 			}
 		} else {
-			if !c.Match(jdk) {
-				return false, nil
-			}
+			match = c.Match(jdk)
+		}
+		if match == negate {
+			return false, nil
 		}
 		res = true
 	}
